@@ -103,7 +103,16 @@ def run(s):
         return core.proved("callsite", "%d reads on two interleaved calculators: each quantity is v2p(same-named volume-base quantity, P(T,V), requested pressures) of its own "
                                        "calculator, argument order (f, P_tv, p)" % n)
     s.oblige("C06.forwarding_of_every_quantity", forwarding, [CA + "v2p", CA + "__getattr__", CA + "modulus_adiabatic", CA + "modulus_isothermal",
-                                                              "calculator.CijPressureBaseModulusInterface.__getitem__"] + [CA + n for n in NAMED], kind="finite")
+                                                              "calculator.CijPressureBaseModulusInterface.__getitem__"] + [CA + n for n in NAMED], kind="finite",
+             fallback=lambda: native_forwarding(cal))
+
+    def forwarding_values():
+        r = native_forwarding(cal)
+        if r.get("reproduced"):
+            return core.refuted("runtime-contract", "pressure-base quantity differs from qha.v2p of the same calculator's volume-base quantity: %s" % {k: v for k, v in r.items() if k != "reproduced"},
+                                witness_id="forwarding-values", replay=r)
+        return core.proved("finite", r["note"])
+    s.oblige("C06.forwarding_values(materialised items, two calculators)", forwarding_values, ["calculator.CijPressureBaseModulusInterface.items", CA + "v2p"], kind="finite")
 
     def v2p_is_qha():
         """the conversion function itself: the imported qha.v2p.v2p called with (f, P_tv, p); if it is re-implemented the
@@ -243,7 +252,54 @@ def run(s):
              kind="finite")
     # ---------------- 4. bounded: real calculations
     real_runs(s)
-    s.min_obligations = 6
+    s.min_obligations = 7
+
+
+def native_forwarding(cal):
+    """the forwarding contract on concrete arrays with the real qha.v2p: two calculators alive at once; every named quantity, attribute-style component, item access and
+    the materialised items() of both modulus tables must equal qha.v2p(own volume-base quantity, own P(T,V), own pressure grid) -- also after everything else was read"""
+    import qha.v2p
+    rnd = numpy.random.RandomState(12)
+    keys = all_keys()
+    ducks = []
+    for tag in ("A", "B"):
+        nt, nv = 3, 14
+        V = numpy.linspace(900, 500, nv)
+        Ptv = numpy.array([0.002 * (900 - V) + 1e-6 * (900 - V) ** 2 + 1e-4 * t * (1 + (tag == "B")) for t in range(nt)])
+        p = numpy.linspace(Ptv[:, 3].max() + 1e-3, Ptv[:, -4].min() - 1e-3, 6 + (tag == "B"))
+        field = lambda: rnd.uniform(0.5, 2.0, size=(nt, nv)).cumsum(axis=1)
+        vb = types.SimpleNamespace(**{n: field() for n in NAMED})
+        vb.mass = 1.0
+        CS, CT = {k: field() for k in keys}, {k: field() for k in keys}
+        for k in keys:
+            setattr(vb, "c%d%d" % k.voigt, CS[k]); setattr(vb, "c%d%ds" % k.voigt, CS[k]); setattr(vb, "c%d%dt" % k.voigt, CT[k]); setattr(vb, "s%d%d" % k.voigt, field())
+        vb.pressures = Ptv
+        calc = types.SimpleNamespace(volume_base=vb, qha_calculator=types.SimpleNamespace(volume_base=types.SimpleNamespace(pressures=Ptv),
+                                                                                           pressure_base=types.SimpleNamespace(p_array=p, t_array=numpy.arange(nt) * 100.0, volumes=None)),
+                                     modulus_adiabatic=CS, modulus_isothermal=CT)
+        ducks.append((tag, calc, cal.CijPressureBaseInterface(calc), Ptv, p))
+    n = 0
+    got = {}
+    for rnd_ in range(2):
+        for tag, calc, pb, Ptv, p in (ducks if rnd_ == 0 else ducks[::-1]):
+            for which, src in (("modulus_adiabatic", calc.modulus_adiabatic), ("modulus_isothermal", calc.modulus_isothermal)):
+                m = getattr(pb, which)
+                tables = dict(m.items())                    # materialised: every yielded table is kept
+                listed = list(m.items())
+                for k in keys:
+                    want = qha.v2p.v2p(src[k], Ptv, p)
+                    for how, g in (("dict(items())[key]", tables.get(k)), ("[key]", m[k]), ("list(items())", dict(listed).get(k))):
+                        n += 1
+                        if g is None or numpy.shape(g) != want.shape or not numpy.allclose(g, want, rtol=1e-12, atol=1e-14):
+                            return {"reproduced": True, "calculator": tag, "table": which, "key": repr(k), "access": how,
+                                    "observed": None if g is None else numpy.ravel(g)[:3].tolist(), "expected": numpy.ravel(want)[:3].tolist()}
+            for name in NAMED + ["c11", "c11s", "c11t", "c44t", "s12"]:
+                want = qha.v2p.v2p(getattr(calc.volume_base, name), Ptv, p)
+                g = getattr(pb, name)
+                n += 1
+                if numpy.shape(g) != want.shape or not numpy.allclose(g, want, rtol=1e-12, atol=1e-14):
+                    return {"reproduced": True, "calculator": tag, "quantity": name, "observed": numpy.ravel(g)[:3].tolist(), "expected": numpy.ravel(want)[:3].tolist()}
+    return {"reproduced": False, "evaluations": n, "note": "%d reads on two calculators alive at once, real qha.v2p" % n}
 
 
 class _OpaqueSettings(dict):
